@@ -397,9 +397,17 @@ impl<'a, R: RealNumberInternalTrait> Interpreter<'a, R> {
             Primitive::String(string) => Value::String(string.clone()),
             Primitive::Boolean(value) => Value::Boolean(*value),
             Primitive::Integer(value) => Value::Number(Number::Integer(*value)),
-            Primitive::Real(number_literal) => Value::Number(Number::Real(
-                R::from(number_literal.parse::<f64>().unwrap()).unwrap(),
-            )),
+            Primitive::Real(number_literal) => {
+                match number_literal.parse::<f64>().ok().and_then(R::from) {
+                    Some(real) => Value::Number(Number::Real(real)),
+                    None => {
+                        return error!(LogicError::Extension(format!(
+                            "invalid real literal {}",
+                            number_literal
+                        )))
+                    }
+                }
+            }
             // TODO: apply gcd here.
             Primitive::Rational(a, b) => {
                 if *b > i32::MAX as u32 {
